@@ -222,6 +222,194 @@ theorem parseAll_tail (f : Bytes → Option Nat) (o : Opts) (eos : Bool) (k : Na
         exact parseAll_of_eos (next_eosBytes f o)
 
 
+/-! ### push decoder -/
+
+/-- the rest of `pushNext` once the size word `n` has been read and `T` is what remains -/
+def pushBody (f : Bytes → Option Nat) (n : Nat) (T : Bytes) : PNext :=
+  if T.length < n then .short
+  else
+    match f (T.take n) with
+    | none => .err
+    | some bl =>
+      if (T.drop n).length = 0 then .short
+      else if (T.drop n).length < bl then .short
+      else .msg (T.take n) ((T.drop n).take bl) ((T.drop n).drop bl)
+
+theorem pushNext_lenPrefix (f : Bytes → Option Nat) (o : Opts) {n : Nat} (h0 : 0 < n) (h : n < 2 ^ 31)
+    (T : Bytes) : pushNext f (lenPrefix o n ++ T) = pushBody f n T := by
+  have hm : META_LEN_BYTES = 4 := rfl
+  have hv : le32val (le32 n) = n := le32val_le32 (by omega)
+  have hn0 : ¬ n = 0 := by omega
+  have e2 : readExact 4 (le32 n ++ T) = some (le32 n, T) := readExact_append (le32_length n) T
+  have hne0 : ¬ (lenPrefix o n ++ T).length = 0 := by
+    have h1 := lenPrefix_length o n
+    have h2 := prefixSize_ge o
+    simp only [List.length_append]; omega
+  unfold pushNext
+  rw [if_neg hne0]
+  unfold lenPrefix pushBody
+  rw [hm]
+  cases o.legacy
+  · have e1 : readExact 4 (contMarker ++ le32 n ++ T) = some (contMarker, le32 n ++ T) := by
+      rw [List.append_assoc]; exact readExact_append (by decide) _
+    simp only [Bool.false_eq_true, if_false, e1, e2, if_true, hv, hn0]
+    rfl
+  · have hne : ¬ le32 n = contMarker := le32_ne_contMarker h
+    simp only [if_true, List.nil_append, e2, hne, if_false, hv, hn0]
+    rfl
+
+theorem pushNext_nil {f : Bytes → Option Nat} : pushNext f [] = .clean := by
+  simp [pushNext]
+
+theorem pushNext_short {f : Bytes → Option Nat} {bs : Bytes} (h0 : 0 < bs.length) (h : bs.length < 4) :
+    pushNext f bs = .short := by
+  have hm : META_LEN_BYTES = 4 := rfl
+  unfold pushNext
+  rw [if_neg (by omega), hm]
+  have : readExact 4 bs = none := by simp [readExact]; omega
+  simp only [this]
+
+theorem pushNext_marker_short {f : Bytes → Option Nat} {T : Bytes} (h : T.length < 4) :
+    pushNext f (contMarker ++ T) = .short := by
+  have hm : META_LEN_BYTES = 4 := rfl
+  unfold pushNext
+  rw [if_neg (by rw [contMarker_eq]; simp), hm]
+  have e1 : readExact 4 (contMarker ++ T) = some (contMarker, T) := readExact_append (by decide) _
+  have e2 : readExact 4 T = none := by simp [readExact]; omega
+  simp only [e1, if_true, e2]
+
+theorem pushBody_take (f : Bytes → Option Nat) (W B S : Bytes) (hf : f W = some B.length) (j : Nat)
+    (hj : j ≤ (W ++ (B ++ S)).length) :
+    pushBody f W.length ((W ++ (B ++ S)).take j) =
+      if W.length + B.length < j ∨ (W.length + B.length = j ∧ B.length ≠ 0)
+      then .msg W B (S.take (j - W.length - B.length)) else .short := by
+  simp only [List.length_append] at hj
+  unfold pushBody
+  by_cases h1 : j < W.length
+  · have : ((W ++ (B ++ S)).take j).length < W.length := by simp; omega
+    simp only [this, if_true]
+    have : ¬ (W.length + B.length < j ∨ (W.length + B.length = j ∧ B.length ≠ 0)) := by omega
+    simp only [this, if_false]
+  · have hj1 : W.length ≤ j := by omega
+    rw [take_append_ge hj1]
+    have hl : ¬ (W ++ (B ++ S).take (j - W.length)).length < W.length := by simp
+    simp only [hl, if_false, take_left', drop_left', hf]
+    have hlen : ((B ++ S).take (j - W.length)).length = j - W.length := by simp; omega
+    rw [hlen]
+    by_cases hc : W.length + B.length < j ∨ (W.length + B.length = j ∧ B.length ≠ 0)
+    · simp only [hc, if_true]
+      have a1 : ¬ j - W.length = 0 := by omega
+      have a2 : ¬ j - W.length < B.length := by omega
+      simp only [a1, a2, if_false]
+      rw [take_append_ge (by omega)]
+      simp only [take_left', drop_left']
+    · simp only [hc, if_false]
+      by_cases a1 : j - W.length = 0
+      · simp only [a1, if_true]
+      · simp only [a1, if_false]
+        have a2 : j - W.length < B.length := by omega
+        simp only [a2, if_true]
+
+/-- one step of the push decoder on a truncated stream that starts with a well-formed frame -/
+theorem pushNext_frame_take (f : Bytes → Option Nat) (o : Opts) (m : Msg) (hwf : WFMsg o f m)
+    (S : Bytes) (k : Nat) (hk : k ≤ (encodeMsg o m ++ S).length) :
+    pushNext f ((encodeMsg o m ++ S).take k) =
+      if frameLen o m < k ∨ (frameLen o m = k ∧ m.body.length ≠ 0)
+      then .msg (wireMeta o m) m.body (S.take (k - frameLen o m))
+      else if k = 0 then .clean else .short := by
+  obtain ⟨h0, h31, hb⟩ := hwf
+  have hP := lenPrefix_length o (wireMeta o m).length
+  have hP4 := prefixSize_ge o
+  have hFL : frameLen o m = prefixSize o + (wireMeta o m).length + m.body.length := rfl
+  by_cases hk0 : k = 0
+  · subst hk0
+    have : ¬ (frameLen o m < 0 ∨ (frameLen o m = 0 ∧ m.body.length ≠ 0)) := by omega
+    simp only [this, if_false, if_true, List.take_zero, pushNext_nil]
+  · by_cases hk4 : k < 4
+    · have hl : ((encodeMsg o m ++ S).take k).length = k := by rw [List.length_take]; exact Nat.min_eq_left hk
+      rw [pushNext_short (by omega) (by omega)]
+      have : ¬ (frameLen o m < k ∨ (frameLen o m = k ∧ m.body.length ≠ 0)) := by omega
+      simp only [this, if_false, hk0]
+    · by_cases hkP : k < prefixSize o
+      · rcases prefixSize_cases o with ⟨hl, hp⟩ | ⟨hl, hp⟩
+        · omega
+        · have : ¬ (frameLen o m < k ∨ (frameLen o m = k ∧ m.body.length ≠ 0)) := by omega
+          simp only [this, if_false, hk0]
+          unfold encodeMsg lenPrefix
+          simp only [hl, Bool.false_eq_true, if_false]
+          rw [List.append_assoc, List.append_assoc]
+          rw [take_append_ge (by rw [contMarker_eq]; simp; omega)]
+          apply pushNext_marker_short
+          simp [contMarker_eq]; omega
+      · have hkp : prefixSize o ≤ k := by omega
+        have hlen : (encodeMsg o m ++ S).length = prefixSize o + ((wireMeta o m) ++ (m.body ++ S)).length := by
+          unfold encodeMsg; simp [hP]
+        unfold encodeMsg
+        rw [List.append_assoc, take_append_ge (by omega), hP, List.append_assoc]
+        rw [pushNext_lenPrefix f o h0 h31, pushBody_take f _ _ _ hb _ (by omega)]
+        by_cases hc : frameLen o m < k ∨ (frameLen o m = k ∧ m.body.length ≠ 0)
+        · have : (wireMeta o m).length + m.body.length < k - prefixSize o ∨
+              ((wireMeta o m).length + m.body.length = k - prefixSize o ∧ m.body.length ≠ 0) := by omega
+          simp only [this, hc, if_true]
+          congr 2; omega
+        · have : ¬ ((wireMeta o m).length + m.body.length < k - prefixSize o ∨
+              ((wireMeta o m).length + m.body.length = k - prefixSize o ∧ m.body.length ≠ 0)) := by omega
+          simp only [this, hc, if_false, hk0]
+
+theorem pushAll_of_msg {f : Bytes → Option Nat} {bs a b r : Bytes} (h : pushNext f bs = .msg a b r) :
+    pushAll f bs = ((a, b) :: (pushAll f r).1, (pushAll f r).2) := by
+  rw [pushAll]
+  split <;> simp_all
+
+theorem pushAll_of_clean {f : Bytes → Option Nat} {bs : Bytes} (h : pushNext f bs = .clean) :
+    pushAll f bs = ([], .eos) := by
+  unfold pushAll; split <;> simp_all
+
+theorem pushAll_of_done {f : Bytes → Option Nat} {bs : Bytes} (h : pushNext f bs = .done) :
+    pushAll f bs = ([], .eos) := by
+  unfold pushAll; split <;> simp_all
+
+theorem pushAll_of_short {f : Bytes → Option Nat} {bs : Bytes} (h : pushNext f bs = .short) :
+    pushAll f bs = ([], .err) := by
+  unfold pushAll; split <;> simp_all
+
+theorem pushNext_eosBytes (f : Bytes → Option Nat) (o : Opts) : pushNext f (eosBytes o) = .done := by
+  have hm : META_LEN_BYTES = 4 := rfl
+  cases h : o.legacy <;>
+    simp [eosBytes, lenPrefix, h, pushNext, readExact, contMarker_eq, le32, le32val, hm]
+
+theorem pushAll_tail (f : Bytes → Option Nat) (o : Opts) (eos : Bool) (k : Nat)
+    (hk : k ≤ (if eos then eosBytes o else []).length) :
+    pushAll f ((if eos then eosBytes o else []).take k) =
+      ([], if k = 0 then .eos else if k < (if eos then prefixSize o else 0) then .err else .eos) := by
+  by_cases hk0 : k = 0
+  · subst hk0
+    simp only [List.take_zero, if_true]
+    exact pushAll_of_clean pushNext_nil
+  · simp only [hk0, if_false]
+    cases eos
+    · simp at hk; omega
+    · simp only [if_true] at hk ⊢
+      rw [eosBytes_length] at hk
+      by_cases hkp : k < prefixSize o
+      · simp only [hkp, if_true]
+        apply pushAll_of_short
+        by_cases hk4 : k < 4
+        · apply pushNext_short
+          · simp [eosBytes_length]; omega
+          · simp; omega
+        · rcases prefixSize_cases o with ⟨hl, hp⟩ | ⟨hl, hp⟩
+          · omega
+          · unfold eosBytes lenPrefix
+            simp only [hl, Bool.false_eq_true, if_false]
+            rw [take_append_ge (by rw [contMarker_eq]; simp; omega)]
+            apply pushNext_marker_short
+            simp [contMarker_eq]; omega
+      · simp only [hkp, if_false]
+        rw [List.take_of_length_le (by rw [eosBytes_length]; omega)]
+        exact pushAll_of_done (pushNext_eosBytes f o)
+
+
 /-! ## (b) trailers -/
 
 
